@@ -212,11 +212,16 @@ pub fn run(args: &Args, log: &Log) -> Result<(), String> {
             for role in roles {
                 let causes: Vec<String> = if cause == "rerr" { vec!["rerr".into(), "ueof".into()] } else { vec![cause.clone()] };
                 for c in causes {
-                    let wlen = *r.pick(&[1usize, 50, 3000, 70000]);
-                    let fault_at = if c == "werr" || c == "wblock" { *r.pick(&[0u64, 1, 6, 7, 8, 9, 30]).min(&(wlen as u64 + 6)) } else { *r.pick(&[0u64, 0, 1, 6, 7, 8, 30]) };
-                    let faulty = c == "werr" || c == "wblock";
-                    let cfg = LifeCfg { role, cause: c, fault_at, wlen, scheme: *r.pick(&SCHEMES), fresh: !faulty && role != "server" && r.chance(1, 5) };
-                    run_life(log, &sched, &cfg, &schedule, json!({"kind": "gen", "i": i, "sched": schedule.join("")})).await;
+                    // thorough: every scheme and several payload sizes / fault offsets per schedule
+                    let reps = if thorough { SCHEMES.len() * 3 } else { 1 };
+                    for rep in 0..reps {
+                        let wlen = *r.pick(&[1usize, 50, 3000, 70000]);
+                        let fault_at = if c == "werr" || c == "wblock" { *r.pick(&[0u64, 1, 6, 7, 8, 9, 30]).min(&(wlen as u64 + 6)) } else { *r.pick(&[0u64, 0, 1, 6, 7, 8, 30]) };
+                        let faulty = c == "werr" || c == "wblock";
+                        let scheme = if thorough { SCHEMES[rep % SCHEMES.len()] } else { *r.pick(&SCHEMES) };
+                        let cfg = LifeCfg { role, cause: c.clone(), fault_at, wlen, scheme, fresh: !faulty && role != "server" && r.chance(1, 5) };
+                        run_life(log, &sched, &cfg, &schedule, json!({"kind": "gen", "i": i, "sched": schedule.join("")})).await;
+                    }
                 }
             }
         }
